@@ -6,7 +6,7 @@ import os
 VERIF = os.path.dirname(os.path.dirname(os.path.abspath(__file__)))
 props = [json.loads(l) for l in open(os.path.join(VERIF, "properties.jsonl"))]
 
-COMMON_NOTE = ("Trusted: rustc nightly (type checking, trait resolution, macro expansion, MIR construction, const "
+COMMON_NOTE = ("Functions a change adds (not in rules/known_fns.json) are inlined into their callers before the rules run (DESIGN.md 8.1). Trusted: rustc nightly (type checking, trait resolution, macro expansion, MIR construction, const "
                "evaluation); the API-contract table of DESIGN.md section 6 for std/tokio items; generic code is "
                "analysed once pre-monomorphisation (a rule over impl<T: Trait> holds for every T whose own impl meets "
                "the contract). Decides structural necessary conditions, not the behaviour; wasm32 arms not covered.")
@@ -280,12 +280,27 @@ ROUND8 = {
     "C18": "TraceparentCtxtProps::for_each enumerates the ids synthesised from the active traceparent before the wrapped props; compile-fail witness: an entered traceparent frame's guard is not Send.",
 }
 
+ROUND9 = {
+    "C01": "where a wrapping reads the event twice (FromFilter::wrap) both reads are of one conversion of the caller's value (the wrapping snapshots, or Wrap::emit passes evt.to_event()).",
+    "C02": "an enumeration loop of any Props::for_each impl is left only on exhaustion of its iterator or on a Break from the visitor / inner for_each.",
+    "C08": "the error (and item) of every failed attempt in send_or_wait is carried on, never matched and dropped.",
+    "C09": "the error (and item) of every failed attempt in send_or_wait is carried on, never matched and dropped.",
+    "C10": "the flush decision table (when_flushed) and the receiver's in-batch flag rules of C07 run here too; the flush-and-sync helper summary is shared by every C10 rule that needs the durability point.",
+    "C11": "the carried-over active file and the file re-opened for reuse both pass the fits-and-same-period decision before the first write (must-pass on the CFG).",
+    "C13": "the AnyValue bridge (AnyStream) is checked as a bracket grammar over success-path token sequences (scalars forwarded once inside a well-nested frame of their own label; text/binary/sequence/map groups close what they open under equal label and index values; fragments forwarded; in_map_key raised for exactly a key) and all sval::Value impls of the OTLP data code are well-nested; metric samples reach their points with value and both times, nested sequences are rejected; the writer-buffer rule of C10 runs here too.",
+    "C14": "Kind's Display and FromStr tables agree variant by variant (the accepting edge of the comparison with a variant's text returns Ok of that variant).",
+    "C15": "the RFC 3339 formatter overwrites every 0 of its template once with the right decimal digit of the right calendar part (template runs against the Parts fields in order, divisors 10^k, % 10) and its fraction loop steps cursor and divisor; the parser checks Z at the last byte on every accepting path, separator() fails on a mismatch, digits() returns value*10 + (byte - b'0'), an empty fraction is rejected; Kind's text tables agree variant by variant.",
+    "C16": "Template::eq ends in false on the unequal edge of every comparison (text bytes, hole labels, text against hole, non-empty left-over text), its cursors advance in mirrored pairs, it answers true only behind the complete comparison or an identity test of address and length; Part::with_formatter stores the formatter.",
+}
+
 for p in props:
     pid = p["id"]
     if pid in CLAIMS and os.path.exists(os.path.join(VERIF, "rules", pid.lower() + ".py")):
         text, tech, ref = CLAIMS[pid][:3]
         if pid in ROUND8:
             text = text.rstrip() + " Round 8: " + ROUND8[pid]
+        if pid in ROUND9:
+            text = text.rstrip() + " Round 9: " + ROUND9[pid]
         checks.append({
             "property_id": pid,
             "quick_cmd": "./check %s --tier quick" % pid,
